@@ -63,6 +63,17 @@ CLAIMED = {
         "ref/minorref.py trusted (validated by seeded mutants); optimality claimed up to the tie-breaker mass of the witness",
         "DESIGN.md section 4 C04",
     ),
+    "C11": (
+        "icontract postcondition on estimate_diplotype + predicates on the rendered strings over all permutations",
+        "The real estimate_diplotype is wrapped with an icontract postcondition (indices are a partition of the called "
+        "copies) and the rendered major/minor diplotype strings are checked by independent predicates: both haplotypes "
+        "non-empty, deletion placeholders, names = called majors with fusion suffix removed and novel core variants "
+        "appended, listed tandems adjacent when > 2 copies, natural order of haplotypes and alleles, order independence "
+        "for <= 2 copies; multisets of 0-6 alleles of the toy gene, CYP2D6, CYP2A6, CYP2C19, GSTM1 and generated "
+        "databases in every permutation (n <= 4) or sampled permutations.",
+        "natsort (the library the code uses) defines natural order",
+        "DESIGN.md section 4 C11",
+    ),
 }
 
 NOT_YET = {}
